@@ -315,12 +315,13 @@ class CtxLTS(object):
         self.reads = {}
         self.entry = None
         self.problems = []
-        from .lts import LexModels
+        from .lts import LexModels, ctx_fn_shape
+        cursors = ctx_fn_shape(body)[1] or {1}
 
         def models(eng, st, c):
             name = c.callee or ""
             if name in ("std::iter::Iterator::next", "<I as std::iter::Iterator>::next") and \
-                    c.args and c.args[0] == ("ref", 1, ()):
+                    c.args and c.args[0][0] == "ref" and c.args[0][2] == () and c.args[0][1] in cursors:
                 raise Cut(("read", c.site, c.dest, c.target))
             if name == exp.prefix + "_BINARY_SEARCH" and tables_ok:
                 x, tb = c.args[0], c.args[1]
